@@ -11,7 +11,7 @@ import (
 
 	"verifsim/engine"
 	"verifsim/machine"
-	_ "verifsim/props"
+	"verifsim/props"
 )
 
 func main() {
@@ -29,6 +29,7 @@ func main() {
 	show := flag.Int("show", -1, "print the scenario with this index and exit")
 	one := flag.Int("one", -1, "execute only the scenario with this index, in-process, verbosely")
 	selftest := flag.Bool("selftest", false, "determinism self-test of the harness")
+	trace := flag.String("trace", "", "internal: print the trace digests of a scenario file (C24 child process)")
 	flag.Parse()
 
 	engine.PanicClassifier = machine.ClassifyStack
@@ -55,6 +56,9 @@ func main() {
 		*tier = t
 	}
 
+	if *trace != "" {
+		exit(props.TraceJSON(*trace))
+	}
 	if *replay != "" {
 		sc, err := engine.LoadScenario(*replay)
 		if err != nil {
